@@ -7,12 +7,14 @@ Rq1(d) == [k |-> "rq", ja |-> 0, kk |-> 1, c |-> Pre(<<<<1, 1>>, <<1, 1>>>>, d)]
 Wn == [k |-> "wn", j |-> -1]
 Hn(n) == [k |-> "hn", js |-> Pre(<<-1, 0, -2>>, n)]
 Sum(ps) == [k |-> "sum", parts |-> ps]
+Cp(ps, cs) == [k |-> "cp", parts |-> ps, axis |-> 1, cs |-> cs]
 XSets == { << <<0>>, <<2>> >>, << <<0>>, <<1>> >>, << <<1>> >>, << <<0, 1>>, <<1, 0>> >> }
 Ys == <<1, -2, 3>>
 Diag(v) == [i \in 1..Len(v) |-> [j \in 1..Len(v) |-> IF i = j THEN v[i] ELSE <<0, 1>>]]
 Sigs(n) == { Diag(Pre(<<<<0, 1>>, <<0, 1>>, <<0, 1>>>>, n)), Diag(Pre(<<<<1, 4>>, <<1, 4>>, <<1, 4>>>>, n)), Diag(Pre(<<<<1, 1>>, <<1, 4>>, <<1, 2>>>>, n)) }
         \cup (IF n = 3 THEN { << <<<<1, 1>>, <<1, 2>>, <<0, 1>>>>, <<<<1, 2>>, <<1, 1>>, <<0, 1>>>>, <<<<0, 1>>, <<0, 1>>, <<1, 4>>>> >> } ELSE {})
-Kernels(d, n) == { Se1(d), Se2(d), Rq1(d), Sum(<<Se1(d), Wn>>), Sum(<<Rq1(d), Hn(n)>>) }
+\* a change-point kernel has a position-dependent prior variance (amplitudes 1 and 4 on the two sides)
+Kernels(d, n) == { Se1(d), Se2(d), Rq1(d), Sum(<<Se1(d), Wn>>), Sum(<<Rq1(d), Hn(n)>>) } \cup (IF n = 2 THEN {Sum(<<Cp(<<Se1(d), Se2(d)>>, <<1>>), Wn>>)} ELSE {})
 Means(d) == { [k |-> "const", th |-> <<2>>], [k |-> "lin", th |-> Pre(<<1, 2, -1>>, 1 + d)], [k |-> "quad", th |-> Pre(<<1, 2, -1, 1, 1>>, 1 + 2 * d)] }
 Queries(d) == IF d = 1 THEN << <<1>>, <<2>>, <<-1>> >> ELSE << <<1, 0>>, <<0, 0>>, <<2, 1>> >>
 VARIABLES pb, cx, out
